@@ -78,6 +78,9 @@ func catalogue(tier string) []shp {
 		shp{Name: "gon64", Polys: [][][][2]int64{{gon(64, 3000, 3000, 2950)}}, Milli: true},
 		shp{Name: "gon100-hole65", Polys: [][][][2]int64{{gon(100, 3100, 2900, 3333), gon(65, 3000, 3000, 1777)}}, Milli: true},
 		shp{"box-Uhole", [][][][2]int64{{box(0, 0, 8, 8), {{1, 1}, {7, 1}, {7, 7}, {5, 7}, {5, 3}, {3, 3}, {3, 7}, {1, 7}}}}, false, false},
+		// a rectangle that contains the other operand at every offset (and, as B,
+		// covers it), so that holes and islands lie strictly inside a *Bounds operand
+		shp{"box[-9,17]x[-9,17]", [][][][2]int64{{box(-9, -9, 17, 17)}}, true, false},
 	)
 	return out
 }
@@ -118,6 +121,17 @@ var affines = [][6]float64{
 	{-0.7071067811865476, 0.7071067811865476, 0.7071067811865476, 0.7071067811865476, 0, 0}, // reflection + rotation (negative determinant)
 	{math.Ldexp(1, -20), 0, 0, math.Ldexp(1, -20), 0, 0},                                    // exact scaling by 2^-20: areas of about 1e-11
 	{math.Ldexp(1, 30), 0, 0, math.Ldexp(1, 30), 0, 0},                                      // exact scaling by 2^30: areas of about 1e19
+	{math.Ldexp(1, -10), 0, 0, math.Ldexp(1, -10), 4194304, 6291456},                        // small and far away: shapes of 5e-3 around (2^22, 3*2^21), nine orders of magnitude below their coordinates
+}
+
+// relTol is the relative area tolerance of a case: 1e-9, and 1e-5 under the
+// "small and far away" map, where every vertex is rounded to 2^-30 (1e-9), i.e.
+// to 2e-7 of the size of the shape.
+func relTol(k int) float64 {
+	if k == 6 {
+		return 1e-5
+	}
+	return 1e-9
 }
 
 func affPt(k int, x, y float64) (float64, float64) {
@@ -366,7 +380,7 @@ func runCase(c Case, cat []shp) {
 				}
 				rr := resultRegion(res)
 				if len(rr) == 0 {
-					if want[op] > 1e-9*unit {
+					if want[op] > relTol(c.Affine)*unit {
 						rep.Violation(sig("empty-result-but-true-area-positive"), det(""))
 					}
 					continue
@@ -384,7 +398,7 @@ func runCase(c Case, cat []shp) {
 					}
 				}
 				got := exact.Area(rr)
-				if math.Abs(got-want[op]) > 1e-9*math.Max(unit, want[op]) {
+				if math.Abs(got-want[op]) > relTol(c.Affine)*math.Max(unit, want[op]) {
 					rep.Violation(sig("area-differs"), det(fmt.Sprintf("region area of the result %.12g", got)))
 					continue
 				}
@@ -447,7 +461,7 @@ func runCase(c Case, cat []shp) {
 					}
 					got := exact.Area(resultRegion(res))
 					kept[op], keptArea[op] = res, got
-					if math.Abs(got-want[op]) > 1e-9*math.Max(unit, want[op]) {
+					if math.Abs(got-want[op]) > relTol(c.Affine)*math.Max(unit, want[op]) {
 						rep.Violation(sig("area-differs"), det(fmt.Sprintf("region area of the result %.12g", got)))
 					}
 				}
@@ -478,7 +492,7 @@ func main() {
 		return
 	}
 	rep = report.New("C01", tier, "model_checking")
-	rep.Rule = "E1: operand catalogue (9 (36) axis-aligned boxes, 2 triangles, L, C, pentagon, box with 1 and 2 holes, two disjoint boxes, box + box-with-hole, island inside a hole, box with a U-shaped hole, a 64-gon, a 100-gon with a 65-gon hole) in both windings for A and B (operands with holes also with closed rings and with closed and unclosed rings mixed in one polygon, and with the holes listed before their shell), B translated by every vector of a 4x4 (8x8) odd-integer grid + (0.37,0.41), every receiver/argument cast {Polygon, MultiPolygon, *Bounds} x {Intersection, Union, Difference, XOr}; a third of the pairs again with both operands cut from flat vertex buffers (same areas, buffers not written, earlier results intact after later operations); the catalogue pairs again under 3 affine maps with non-representable coefficients (rotation by 30 deg, shear+scale, reflection) and 2 exact scalings (2^-20, 2^30; areas scale by |det|, references on the integer pre-images); pairs not in general position (exact integer test) are skipped and counted. Oracle: even-odd membership of ~2400 lattice points with an exactly verified 0.05 margin must equal the boolean combination; region area of the result (slab decomposition) must equal the slab-decomposition area of the true region (rel 1e-9); rings closed for Polygon/MultiPolygon receivers; empty result only if the true area is 0. Non-trivial = operand pairs that cross or nest."
+	rep.Rule = "E1: operand catalogue (9 (36) axis-aligned boxes and one box large enough to contain every other operand, 2 triangles, L, C, pentagon, box with 1 and 2 holes, two disjoint boxes, box + box-with-hole, island inside a hole, box with a U-shaped hole, a 64-gon, a 100-gon with a 65-gon hole) in both windings for A and B (operands with holes also with closed rings and with closed and unclosed rings mixed in one polygon, and with the holes listed before their shell), B translated by every vector of a 4x4 (8x8) odd-integer grid + (0.37,0.41), every receiver/argument cast {Polygon, MultiPolygon, *Bounds} x {Intersection, Union, Difference, XOr}; a third of the pairs again with both operands cut from flat vertex buffers (same areas, buffers not written, earlier results intact after later operations); the catalogue pairs again under 3 affine maps with non-representable coefficients (rotation by 30 deg, shear+scale, reflection) 2 exact scalings (2^-20, 2^30) and one small-and-far map (scaled by 2^-10 and moved to (2^22, 3*2^21): shapes nine orders of magnitude below their coordinates; area tolerance 1e-5 there) (areas scale by |det|, references on the integer pre-images); pairs not in general position (exact integer test) are skipped and counted. Oracle: even-odd membership of ~2400 lattice points with an exactly verified 0.05 margin must equal the boolean combination; region area of the result (slab decomposition) must equal the slab-decomposition area of the true region (rel 1e-9); rings closed for Polygon/MultiPolygon receivers; empty result only if the true area is 0. Non-trivial = operand pairs that cross or nest."
 	cat := catalogue(tier)
 	offs := []int64{-7, -3, 1, 5}
 	if tier == "thorough" {
